@@ -70,6 +70,11 @@ def branches {ρ} : List (Src ρ) → List (List ρ × Nat)
   | [] => [([], 1)]
   | s :: ss => s.results.flatMap fun rc => (branches ss).map fun bw => (rc.1 :: bw.1, rc.2 * bw.2)
 
+/-- `prod(obj.total for obj in objs) or 1` -/
+def srcTotal {ρ} (srcs : List (Src ρ)) : Nat :=
+  let t := (srcs.map (·.total)).foldl (· * ·) 1
+  if t = 0 then 1 else t
+
 def cutNow (lim : Limit) (c : Ctx) : Bool :=
   match lim with
   | .int n => decide (c.depth ≥ n)
@@ -104,7 +109,7 @@ def evalFn {α ρ} (env : Nat → Fn α ρ) (agg : List (Ret α × Nat) → Hist
     let finish (h : Hist α) : Hist α := if cur.depth = 0 then lowest h else h
     if cutNow newLim cur then (.ok (finish (env fn).sentinel), cell)
     else
-      let total := (srcs.map (·.total)).foldl (· * ·) 1
+      let total := srcTotal srcs
       let mkCtx (cc : Nat) : Ctx := ⟨some newLim, cur.depth + 1, cur.precNum * cc, cur.precDen * total⟩
       match (branches srcs).foldl (branchStep (evalFn env agg lowest fuel) (env fn) mkCtx) (pure []) cell with
       | (.ok rs, cell') => (.ok (finish (agg rs)), cell')
